@@ -224,3 +224,52 @@ Proof. intros Ho Hl. rewrite h2_pipe_end_on_data by assumption. discriminate. Qe
 
 Lemma ended_on_trailers fs : open_frames fs -> snd (h2_pipe (h2_events fs true)) <> H2Pending.
 Proof. intros Ho. rewrite h2_pipe_end_on_trailers by assumption. discriminate. Qed.
+
+(* ====================================================================== *)
+(* concurrent streams on one connection are independent                   *)
+(* ====================================================================== *)
+
+Inductive interleave {A} : list A -> list A -> list A -> Prop :=
+| il_nil : interleave [] [] []
+| il_left x a b l : interleave a b l -> interleave (x :: a) b (x :: l)
+| il_right x a b l : interleave a b l -> interleave a (x :: b) (x :: l).
+
+(* a connection event that is none of stream [sid]'s business: another stream's frame, a PING,
+   a graceful GOAWAY that covers the stream *)
+Definition foreign (sid : N) (c : conn_ev) : Prop := stream_view sid [c] = [].
+
+Lemma stream_view_cons sid c l : stream_view sid (c :: l) = stream_view sid [c] ++ stream_view sid l.
+Proof. unfold stream_view. cbn [flat_map]. now rewrite app_nil_r. Qed.
+
+(* For EVERY interleaving of a stream's own frames with anything foreign to it - frames of any
+   number of other streams (also streams that end, are reset or whose callers go away
+   meanwhile), PINGs, graceful GOAWAYs covering it - the stream sees exactly its own frames,
+   in order. *)
+Theorem stream_view_interleave sid own other l :
+  interleave (map (CFrame sid) own) other l -> Forall (foreign sid) other ->
+  stream_view sid l = own.
+Proof.
+  intros H. remember (map (CFrame sid) own) as mine eqn:E. revert own E.
+  induction H as [|x a b l H IH|x a b l H IH]; intros own E Hf.
+  - destruct own; [reflexivity|discriminate].
+  - destruct own as [|e own]; [discriminate|]. cbn [map] in E. inversion E; subst.
+    rewrite stream_view_cons. cbn [stream_view flat_map]. rewrite N.eqb_refl. cbn [app].
+    f_equal. now apply IH.
+  - inversion Hf as [|? ? Hx Hb]; subst. rewrite stream_view_cons. unfold foreign in Hx. rewrite Hx.
+    cbn [app]. now apply IH.
+Qed.
+
+(* ... hence every caller reads exactly what it would read with the connection to itself *)
+Theorem concurrent_streams_independent cl hdr_end sid own other l :
+  interleave (map (CFrame sid) own) other l -> Forall (foreign sid) other ->
+  h2_conn_read cl hdr_end sid l = h2_read cl hdr_end own.
+Proof. intros H Hf. unfold h2_conn_read. now rewrite (stream_view_interleave sid own other l H Hf). Qed.
+
+Lemma foreign_other_stream sid s e : s <> sid -> foreign sid (CFrame s e).
+Proof. intros H. unfold foreign. cbn. destruct (N.eqb_spec s sid); [contradiction|reflexivity]. Qed.
+
+Lemma foreign_ping sid : foreign sid CPing.
+Proof. reflexivity. Qed.
+
+Lemma foreign_graceful_goaway sid last : (sid <= last)%N -> foreign sid (CGoAway last).
+Proof. intros H. unfold foreign. cbn. destruct (N.leb_spec sid last); [reflexivity|lia]. Qed.
